@@ -190,7 +190,46 @@ func costTemplates(proto string) []costTemplate {
 			return b.Bytes()
 		}
 		full := body(2, []byte("cl"), 1, 5, []byte("topic"))
+		// Produce v3 request with one record batch of one record with one header; each count / length
+		// of the batch is a template field
+		zz := func(v int64) []byte {
+			u := uint64(v<<1) ^ uint64(v>>63)
+			var out []byte
+			for u >= 0x80 {
+				out = append(out, byte(u)|0x80)
+				u >>= 7
+			}
+			return append(out, byte(u))
+		}
+		be64 := func(v int64) []byte { b := make([]byte, 8); binary.BigEndian.PutUint64(b, uint64(v)); return b }
+		cat := func(parts ...[]byte) []byte {
+			var out []byte
+			for _, p := range parts {
+				out = append(out, p...)
+			}
+			return out
+		}
+		recTail := cat(zz(1), []byte("h"), zz(1), []byte("x"))                                  // after the header count
+		recMid := cat([]byte{0}, zz(0), zz(0), zz(1), []byte("k"), zz(1), []byte("v"))          // attributes .. value
+		record := cat(zz(int64(len(recMid)+1+len(recTail))), recMid, zz(1), recTail)             // length, .., header count 1, header
+		batchHead := cat(be64(0), be32(int64(49+len(record))), be32(-1), []byte{2}, be32(0), be16(0), be32(0), be64(1700000000000), be64(1700000000000), be64(-1), be16(-1), be32(-1))
+		prodHead := cat(be16(0), be16(3), be32(9), be16(2), []byte("cl"), be16(-1), be16(1), be32(1000), be32(1), be16(1), []byte("t"), be32(1), be32(0))
+		produce := func(before, after []byte) (b, a []byte) {
+			// the message size is that of the well-formed message; only the templated field varies
+			wf := cat(prodHead, be32(int64(len(batchHead)+4+len(record))), batchHead, be32(1), record)
+			return cat(be32(int64(len(wf))), before), after
+		}
+		pb1, pa1 := produce(cat(prodHead, be32(int64(len(batchHead)+4+len(record))), batchHead), record)                               // record count
+		pb2, pa2 := produce(cat(prodHead, be32(int64(len(batchHead)+4+len(record))), batchHead, be32(1), zz(int64(len(recMid)+1+len(recTail))), recMid), recTail) // header count
+		pb3, pa3 := produce(cat(prodHead, be32(int64(len(batchHead)+4+len(record))), batchHead, be32(1), zz(int64(len(recMid)+1+len(recTail))), []byte{0}, zz(0), zz(0)), cat([]byte("k"), zz(1), []byte("v"), zz(1), recTail)) // key length
+		pb4, pa4 := produce(cat(prodHead, be32(int64(len(batchHead)+4+len(record))), batchHead, be32(1), zz(int64(len(recMid)+1+len(recTail))), recMid, zz(1)), cat([]byte("h"), zz(1), []byte("x"))) // header key length
+		pb5, pa5 := produce(prodHead, cat(batchHead, be32(1), record))                                                               // record set size
 		return []costTemplate{
+			{"record-count", "c", pb1, be32, pa1},
+			{"record-header-count", "c", pb2, zz, pa2},
+			{"record-key-length", "c", pb3, zz, pa3},
+			{"record-header-key-length", "c", pb4, zz, pa4},
+			{"record-set-size", "c", pb5, be32, pa5},
 			{"message-size", "c", nil, be32, full},
 			{"client-id-length", "c", append(be32(int64(len(full))), full[:8]...), be16, full[10:]},
 			{"array-count", "c", append(be32(int64(len(full))), full[:12]...), be32, full[16:]},
